@@ -3,3 +3,4 @@ import HoloModel.IO
 import HoloModel.Rigid
 import HoloModel.Fourier
 import HoloModel.ImgProc
+import HoloModel.Prior
